@@ -12,9 +12,19 @@ NFULL = 8          # complete O(n^2) oracle tables up to this size; above: the s
 # tie-rich curves (on top of gen.curve): symmetric / periodic integer curves, collinear runs
 
 def tie_curve(rng, n):
-    fam = rng.choice(['sym', 'sym', 'periodic', 'periodic', 'vee', 'runs', 'flat', 'twolevel'])
+    fam = rng.choice(['sym', 'sym', 'periodic', 'periodic', 'vee', 'runs', 'flat', 'twolevel', 'sloped', 'sloped'])
     xs = [float(i) for i in range(n)]
-    if fam == 'sym':
+    if fam == 'sloped':
+        # collinear runs on an irregular integer grid with slopes whose chord distances carry rounding noise
+        # (the inputs of the pinned defects D2 / D3: e.g. [[0,0],[1,9],[3,27]])
+        xs = gen.xs_increasing(rng, n, 'int')
+        m = rng.choice([9.0, 3.0, 7.0, 1.0 / 3.0, 0.1, 2.5])
+        kink = rng.randrange(n) if rng.random() < 0.6 else n
+        m2 = rng.choice([0.0, m / 3.0, 2.0 * m])
+        ys = []
+        for i, x in enumerate(xs):
+            ys.append(m * x if i <= kink else m * xs[kink] + m2 * (x - xs[kink]))
+    elif fam == 'sym':
         half = [float(rng.randint(0, rng.choice([1, 2, 3, 5]))) for _ in range((n + 1) // 2)]
         ys = half + half[:n // 2][::-1]
     elif fam == 'periodic':
@@ -195,7 +205,7 @@ class C05:
 
     def generate(self, rng, tier):
         cases = []
-        nchains, nmax = {'quick': (180, 12), 'search': (120, 10), 'thorough': (5000, 40)}.get(tier, (180, 12))
+        nchains, nmax = {'quick': (420, 12), 'search': (150, 10), 'thorough': (5000, 40)}.get(tier, (420, 12))
         cfg = [(d, o) for d in DISTS for o in ORDERS]
         for i in range(nchains):
             if tier == 'thorough' and i % 4 == 0:
